@@ -151,6 +151,9 @@ def replay(ctx, rep):
     v = r.run_group([c["behaviour"]])
     print("ops:", [{k: x[k] for k in x if k != "st"} for x in c["behaviour"]])
     print("result:", None if v is None else (v[0], v[1]))
+    if v and "|" in v[1] and v[1].split("|")[1] in ctx.known:
+        print("KNOWN-FINDING: property=%s %s [%s]" % (ctx.pid, ctx.known[v[1].split("|")[1]]["what"][:200], v[1].split("|")[1]))
+        return 0
     if v:
         print("VIOLATION property=%s replay=(replayed)" % ctx.pid)
         return 1
